@@ -2,6 +2,7 @@
 //
 // This file: the selection part (updateBest over an exhaustively enumerated grid of pool configurations).
 // sched_test.go: the schedule part (concurrent head updates, waiters, switches) and the burst stress.
+// concurrent_test.go: several goroutines reporting different heads of ONE connection at the same time.
 package c13
 
 import (
@@ -351,5 +352,5 @@ func TestProp(t *testing.T) {
 }
 
 func TestReplay(t *testing.T) {
-	core.Replay(t, selectOne, selectGrid, schedule, stress, earlyWaiters, headAtRead, headOrder, switchCatchUp, undrainedHeads, runIdle)
+	core.Replay(t, selectOne, selectGrid, schedule, stress, earlyWaiters, headAtRead, headOrder, switchCatchUp, undrainedHeads, runIdle, concurrentHeads)
 }
